@@ -260,6 +260,8 @@ def cmd_text(ws, l):
             L.append('rm -rf ' + D + '"; mkdir -p ' + D + '/sub"')
             L.append("{ " + hdr + '; cat "$c"; } > ' + D + '/a.txt"')
             L.append("{ " + hdr + '; cat "$c"; printf \'+\\n\'; } > ' + D + '/sub/b.txt"')
+            if p.endswith("bulk"):
+                L.append('mkdir -p ' + D + '/many"; for i in $(seq -w 0 599); do printf \'%s\\n\' "$i" > ' + D + '/many/k$i"; done')
             L.append(': > ' + D + '/empty.txt"')
             L.append('ln -s a.txt ' + D + '/link"')
             L.append('if [ -s "$c.l" ]; then mkdir -p ' + D + '/in"; fi')
@@ -1149,6 +1151,8 @@ def gen_history(rng, family="mixed", nsteps=None, full=False, minimal=None):
         kw.update(shared_p=1.0)
     if family == "dirs":
         kw.update(dir_p=0.8)
+    if family == "fanout":
+        kw.update(n=rng.randint(3, 4), dir_p=0.0, split_p=0.0, shared_p=0.0)
     if family == "links":
         kw.update(link_p=1.0, kind_choices=["rec", "rec", "rec", "src", "star"])
     if family == "aliaswipe":
@@ -1175,6 +1179,18 @@ def gen_history(rng, family="mixed", nsteps=None, full=False, minimal=None):
                 ws["aliases"][a1] = d
                 ws["aliases"][a2] = a1
                 ws["targets"][x]["deps"] = [y for y in ws["targets"][x]["deps"] if resolve_alias(ws, y) != d and y != d] + [a2]
+    if family == "fanout":
+        # one dependency with a bulky directory output (loading it takes a while) and several direct dependants
+        order = sorted(ws["targets"], key=lambda x: int(ws["targets"][x]["name"][1:]))
+        d = order[0]
+        dt = ws["targets"][d]
+        dt["nocache"] = False
+        dt["split"] = False
+        dt["outs"] = [o for o in dt["outs"] if not o["dir"]][:1] + [{"dir": True, "rel": "dist%sbulk" % dt["name"][1:]}]
+        for x in order[1:]:
+            ws["targets"][x]["nocache"] = False
+            if d not in rdeps(ws, x):
+                ws["targets"][x]["deps"].append(d)
     if family == "samehash":
         order = sorted(ws["targets"], key=lambda x: int(ws["targets"][x]["name"][1:]))
         top = order[-1]
@@ -1248,7 +1264,7 @@ def gen_history(rng, family="mixed", nsteps=None, full=False, minimal=None):
         st.update(fl)
         hist["steps"].append(st)
     build(["//..."] if rng.random() < 0.7 else None)
-    n = nsteps or (rng.randint(5, 7) if family == "revert" else rng.randint(2, 5))
+    n = nsteps or (rng.randint(5, 7) if family == "revert" else 2 if family == "fanout" else rng.randint(2, 5))
     if family == "cutoff":
         for _ in range(n):
             e = gen_edit(rng, cur, ["fp"])
@@ -1290,6 +1306,19 @@ def gen_history(rng, family="mixed", nsteps=None, full=False, minimal=None):
                 if rng.random() < 0.5:
                     build(["//..."])
                 continue
+        if family == "fanout":
+            # fresh checkout + every dependant edited: they all re-run at once and all need the cached dependency's outputs
+            order_ = sorted(cur["targets"], key=lambda x: int(cur["targets"][x]["name"][1:]))
+            writes = [[pth, None] for pth in sorted(all_out_paths(cur))]
+            hist["steps"].append({"k": "edit", "ws": cur, "writes": writes, "what": "tamper: wipe all declared outputs"})
+            e2 = copy.deepcopy(cur)
+            for x in order_[1:]:
+                e2["targets"][x]["salt"] = "s%d" % rng.randint(500, 599)
+            hist["steps"].append({"k": "edit", "ws": e2, "writes": [], "what": "command of every dependant of %s" % order_[0]})
+            cur = e2
+            versions.append(cur)
+            build(["//..."])
+            continue
         if family == "samehash" and r < 0.7:
             # add / remove ONE of several dependencies whose output hashes are equal (output-less no-cache targets)
             gs = sorted(x for x in cur["targets"] if cur["targets"][x]["pkg"].startswith("g") and not cur["targets"][x]["outs"])
